@@ -45,9 +45,12 @@ def run(prog, tier) -> Result:
             if ratio_kind == "number":
                 ratios = [Num(RF.atom(("r", i)), "exact") for i in range(n)]
             else:
+                # quantity ratios of one type, each in its own unit
                 c.new_type("TR", has_ref=True, has_quantum=False, money=False)
-                ur = c.unit("ur", "TR")
-                ratios = [c.qty(f"r{i}", ur) for i in range(n)]
+                ratios = [c.qty(f"r{i}", c.unit(f"ur{i}", "TR", kind="defined")) for i in range(n)]
+                for i in range(n):
+                    for k in range(i):
+                        c.st.distinct_units(f"ur{i}", f"ur{k}")
             return [me, ListV(ratios), BoolV(disperse)], {}
         return s
 
@@ -76,7 +79,8 @@ def run(prog, tier) -> Result:
             if ratio_kind == "number":
                 rs = [RF.atom(("r", i)) for i in range(n)]
             else:
-                rs = [RF.atom(("a", f"r{i}")) for i in range(n)]
+                # the relative sizes of quantity ratios are their values (amount x scale), not their amounts
+                rs = [RF.atom(("a", f"r{i}")) * st.norm(st.U(f"ur{i}").mu) for i in range(n)]
             tot = RF.const(0)
             for r in rs:
                 tot = tot + r
@@ -101,6 +105,33 @@ def run(prog, tier) -> Result:
                     if st.rnd_depth(p.amount.rf) > 1:
                         return ("portion rounded more than once", repr(st.norm(p.amount.rf)))
                 ssum = ssum + st.norm(p.amount.rf)
+            # R06.5: the dispersal order follows the rounding errors (stored portion - exact share)
+            for e in st.effects:
+                if e[0] == "sorted" and q is not None:
+                    qn = st.norm(q)
+                    facs = []
+                    for el in e[1]:
+                        if not (isinstance(el, TupleV) and len(el.items) == 2 and isinstance(el.items[0], Num)
+                                and isinstance(el.items[1], Num)):
+                            return ("dispersal sort key is not (error, index)", repr(el))
+                        i = int(st.norm(el.items[1].rf).const_value())
+                        share = a_self * rs[i] / tot
+                        err = st.rnd(0, share / qn) * qn - share
+                        key = st.norm(el.items[0].rf)
+                        if err.is_zero():
+                            continue
+                        facs.append(key / err)
+                    for f in facs:
+                        if not f.equals(facs[0]):
+                            return ("dispersal sort keys are not one common multiple of the rounding errors",
+                                    f"key/error ratios {facs[0]!r} and {f!r}")
+                    if facs:
+                        from ..contracts import _sign_of_rf
+                        cst = facs[0].as_constant()
+                        positive = (cst is not None and cst > 0) or _sign_of_rf(st, facs[0]) == 1
+                        if not positive:
+                            return ("dispersal sort key is the rounding error scaled by a factor of unknown sign",
+                                    f"key = error * {facs[0]!r}: the order of the adjustments flips when the factor is negative")
             if st.same_unit(rem.unit.uid, me.unit.uid) is not True or st.same_type(rem.tid, me.tid) is not True:
                 return ("remainder not in the receiver's unit and type", repr(rem))
             lhs = ssum + st.norm(rem.amount.rf)
